@@ -345,3 +345,100 @@ def gas_results_1d(ctx):
                                                          RX + ":get_branch_results_gas_numba"], engine="E2")
 def gas_results_2d(ctx):
     _gas_results(ctx, True)
+
+
+# ---------------------------------------------------------------------------------------------
+# only_update_hydraulic_matrix: the cache may only change HOW the matrix object is produced
+
+BSM = "pandapipes.pf.build_system_matrix"
+
+
+def _names(node):
+    return {n.id for n in ast.walk(node) if isinstance(n, ast.Name)}
+
+
+def _reads_cache(node):
+    return any(isinstance(n, ast.Constant) and n.value in ("_internal_data", "only_update_hydraulic_matrix") for n in ast.walk(node))
+
+
+def _targets(st):
+    """root names written by an assignment (x = .., x[..] = .., x.a = ..); stores into the net object itself are the
+    cache write-set, checked separately"""
+    out = set()
+    tg = []
+    if isinstance(st, ast.Assign):
+        tg = st.targets
+    elif isinstance(st, (ast.AugAssign, ast.AnnAssign)):
+        tg = [st.target]
+
+    def root(t):
+        while isinstance(t, (ast.Subscript, ast.Attribute)):
+            t = t.value
+        return t.id if isinstance(t, ast.Name) else None
+    for t in tg:
+        for e in (t.elts if isinstance(t, (ast.Tuple, ast.List)) else [t]):
+            r = root(e)
+            if r is not None and r != "net":
+                out.add(r)
+    return out
+
+
+@unit("C07", "update_option/dependence", functions=[BSM + ":build_system_matrix"], engine="E4")
+def update_option_dependence(ctx):
+    """information-flow contract of build_system_matrix: the option only_update_hydraulic_matrix and the cached
+    structure in net['_internal_data'] may influence the matrix OBJECT (re-used sparsity structure, data overwritten)
+    but never the load vector, and the cache holds exactly the two structural entries -- so a run with the option
+    solves the same linear systems as a run without it (given an unchanged topology, the option's precondition)"""
+    ctx.assume("A6")
+    fref = S.get_function(BSM + ":build_system_matrix")
+    fn = fref.node
+    tainted = set()
+    changed = True
+
+    def visit(stmts, ctrl):
+        nonlocal changed
+        for st in stmts:
+            if isinstance(st, ast.If):
+                c = ctrl or bool(_names(st.test) & tainted) or _reads_cache(st.test)
+                visit(st.body, c)
+                visit(st.orelse, c)
+                continue
+            if isinstance(st, (ast.For, ast.While)):
+                visit(st.body, ctrl)
+                continue
+            tg = _targets(st)
+            if not tg:
+                continue
+            val = getattr(st, "value", None)
+            dep = ctrl or (val is not None and (bool(_names(val) & tainted) or _reads_cache(val)))
+            if dep and not tg <= tainted:
+                tainted.update(tg)
+                changed = True
+    while changed:
+        changed = False
+        visit(fn.body, False)
+    ctx.decided("flag-and-cache-found", "cover", "update_only" in tainted and "update_option" in tainted, witness=str(sorted(tainted)))
+    ctx.decided("load-vector-independent-of-option-and-cache", "ensures", "load_vector" not in tainted,
+                witness="load_vector depends on the update option / cached data through: %s" % sorted(tainted))
+    allowed = {"update_option", "update_only", "system_matrix", "system_data", "system_cols", "system_rows", "data_order",
+               "row_counter", "unique_rows", "row_counts", "ptr"}
+    ctx.decided("only-the-matrix-construction-depends-on-the-option", "ensures", tainted <= allowed,
+                witness="also depend on the option / cache: %s" % sorted(tainted - allowed))
+    # cache write-set over the whole package
+    keys = set()
+    import os
+    for root, _, files in os.walk(os.path.join(S.REPO, "src", "pandapipes")):
+        if "/test" in root:
+            continue
+        for f in files:
+            if not f.endswith(".py"):
+                continue
+            tree = ast.parse(open(os.path.join(root, f)).read())
+            for n in ast.walk(tree):
+                if isinstance(n, (ast.Assign, ast.AugAssign)):
+                    for t in (n.targets if isinstance(n, ast.Assign) else [n.target]):
+                        if isinstance(t, ast.Subscript) and isinstance(t.value, ast.Subscript) and \
+                                isinstance(t.value.slice, ast.Constant) and t.value.slice.value == "_internal_data":
+                            keys.add(t.slice.value if isinstance(t.slice, ast.Constant) else ast.unparse(t.slice))
+    ctx.decided("cache-holds-exactly-the-structural-entries", "frame", keys == {"hydraulic_data_sorting", "hydraulic_matrix"},
+                witness="entries written to net['_internal_data']: %s" % sorted(keys))
